@@ -8,14 +8,16 @@ namespace glm
 	template<typename genIUType>
 	GLM_FUNC_QUALIFIER genIUType highestBitValue(genIUType Value)
 	{
-		genIUType tmp = Value;
-		genIUType result = genIUType(0);
+		// Work on the unsigned type: ~tmp + 1 overflows a signed type when only the sign bit is left
+		typedef typename detail::make_unsigned<genIUType>::type UT;
+		UT tmp = static_cast<UT>(Value);
+		UT result = UT(0);
 		while(tmp)
 		{
-			result = (tmp & (~tmp + 1)); // grab lowest bit
-			tmp &= ~result; // clear lowest bit
+			result = static_cast<UT>(tmp & (~tmp + 1)); // grab lowest bit
+			tmp = static_cast<UT>(tmp & ~result); // clear lowest bit
 		}
-		return result;
+		return static_cast<genIUType>(result);
 	}
 
 	template<length_t L, typename T, qualifier Q>
@@ -30,7 +32,10 @@ namespace glm
 	template<typename genIUType>
 	GLM_FUNC_QUALIFIER genIUType lowestBitValue(genIUType Value)
 	{
-		return (Value & (~Value + 1));
+		// Work on the unsigned type: ~Value + 1 overflows for the most negative value of a signed type
+		typedef typename detail::make_unsigned<genIUType>::type UT;
+		UT const Bits = static_cast<UT>(Value);
+		return static_cast<genIUType>(Bits & (~Bits + 1));
 	}
 
 	template<length_t L, typename T, qualifier Q>
